@@ -406,6 +406,66 @@ class YieldCounter:
             r.skip = False
         return out
 
+    def _counter_guarded_loop(self, s: ast.For, st: YState, m: Any, extra: dict, before: dict) -> Optional[list]:
+        """for x in xs:  if cnt >= K: break;  <body>   - the loop stops once a counter the body advances has reached K.
+        Every path p of the body has a constant effect (c_p yields, d_p added to cnt).  When each path yields exactly what it counts
+        (c_p == d_p == 1) the loop yields min(len(xs), K - cnt0).  Otherwise the behaviours in which one path is taken in every
+        iteration are returned as separate states (they are feasible whenever the path conditions depend on per-iteration data such
+        as a random draw): a path that yields without counting makes the loop run through all of xs."""
+        if not s.body or not isinstance(s.body[0], ast.If) or s.body[0].orelse or len(s.body[0].body) != 1 or not isinstance(s.body[0].body[0], ast.Break):
+            return None
+        t = s.body[0].test
+        if not (isinstance(t, ast.Compare) and len(t.ops) == 1 and isinstance(t.left, ast.Name) and t.left.id in before
+                and isinstance(t.ops[0], (ast.GtE, ast.Gt, ast.Eq))):
+            return None
+        cnt = t.left.id
+        K = evaluate(st.env, t.comparators[0])
+        if not isinstance(K, Lin) or not isinstance(m, Lin):
+            return None
+        if isinstance(t.ops[0], ast.Gt):
+            K = K + Lin.c(1)
+        if any(isinstance(x, ast.Break) for b_ in s.body[1:] for x in ast.walk(b_)):
+            return None
+        results = self.body_effect(s.body[1:], st, extra)
+        if not results or any(isinstance(r.count, Opaque) or r.done or not r.count.is_const() for r in results):
+            return None
+        paths = []
+        for r in results:
+            after = r.env.vars.get(cnt)
+            if not isinstance(after, Lin) or not (after - before[cnt]).is_const():
+                return None
+            if any(isinstance(r.env.vars.get(k), Lin) and r.env.vars.get(k) != v for k, v in before.items() if k != cnt):
+                return None                     # another counter changes as well: not this idiom
+            paths.append((int(r.count.const), int((after - before[cnt]).const), r))
+        room = K - before[cnt]                   # how far the counter is from the bound when the loop starts
+        if all(c == 1 and d == 1 for c, d, _ in paths):
+            times = self.amin(st.env, m, room) if entails_ge0(st.env.facts, room) else None
+            if not isinstance(times, Lin):
+                return None
+            st.count = self.add(st.count, times)
+            st.env.vars[cnt] = before[cnt] + times
+            return [st]
+        out = []
+        seen = set()
+        for c, d, r in paths:
+            if (c, d) in seen:
+                continue
+            seen.add((c, d))
+            ns = st.copy()
+            if d <= 0:
+                times = m                        # the counter never advances on this path: the loop runs through the whole input
+            elif d == 1 and entails_ge0(ns.env.facts, room):
+                times = self.amin(ns.env, m, room)
+            else:
+                return None
+            if not isinstance(times, Lin):
+                return None
+            ns.count = self.add(ns.count, times.scale(c))
+            ns.env.vars[cnt] = before[cnt] + times.scale(d)
+            ns.conds.append(f"every iteration takes the path [{'; '.join(r.conds)[:80] or 'unconditional'}] ({c} yielded, '{cnt}' advanced by {d})")
+            out.append(ns)
+        return out
+
     def counters(self, st: YState) -> dict[str, Lin]:
         return {k: v for k, v in st.env.vars.items() if isinstance(v, Lin) and k != self.k_name}
 
@@ -468,6 +528,9 @@ class YieldCounter:
             if tn != idx_name:
                 extra[tn] = Opaque("element")
         before = self.counters(st)
+        guarded = self._counter_guarded_loop(s, st, m, extra, before)
+        if guarded is not None:
+            return guarded
         results = self.body_effect(s.body, st, extra)
         if any(isinstance(r.count, Opaque) or r.done for r in results) or not results:
             st.count = Opaque("loop body effect not affine")
